@@ -20,11 +20,16 @@ RULE = ("cases = random expression trees over the C/C++ operator grammar (all bi
         "operators, casts, calls, subscripts, member access) printed with minimal and with redundant parentheses inside "
         "`void f(...) { x = <expr>; }`, in C and C++ mode; non-trivial = the tree has >= 2 operators of different levels or a "
         "parenthesis that changes the grouping")
-EXPLANATION = ("Proved in Lean for every expression tree of any depth over the extracted ladder: printing a tree with any grammatical "
-               "parenthesisation and running the model of prepareTernaryOpForAST + createAst gives back exactly that tree "
-               "(binary levels, ?:, assignment, comma, parentheses; AST_MAX_DEPTH as explicit hypothesis). Level 'other': prefix/postfix "
-               "operators, casts, calls, subscripts, member access are modelled and correspondence-checked, theorems cover them only "
-               "partially; new/delete, lambdas, _Generic, initializer lists, templates, keywords are outside the model.")
+EXPLANATION = ("Proved in Lean (unbounded, generic in the level table): for every parse tree of the expression grammar over a well-formed "
+               "table - binary levels, ?:, assignment, comma, parentheses anywhere the grammar allows - the model of prepareTernaryOpForAST (x2) "
+               "+ createAst returns exactly the grammar's tree (createAst_follows_grammar; hypotheses: AST_MAX_DEPTH, and declOK = no `(` is "
+               "followed by what skipDecl takes for a declaration - proved necessary by createAst_follows_grammar_counterexample, finding F7a); "
+               "the table extracted from the working tree equals the ISO C++20/C17 table and is well-formed (decide over the whole table). "
+               "Level 'other': prefix/postfix operators, casts, calls, subscripts and member access are inside the executable model and the "
+               "correspondence (pipeline, raw createAst, prepareTernaryOpForAST, --dump, clang oracle for the specification) but not yet inside "
+               "the theorems; tokenizer passes other than prepareTernaryOpForAST are not modelled (expressions they rewrite are counted as "
+               "normalised:* and only compared model-vs-code); new/delete, lambdas, _Generic, initializer lists, templates, keywords, `.*` are "
+               "outside the model (Err.outside).")
 THEOREMS = ["Cppcheck.AstLadder.extracted_table_is_C", "Cppcheck.AstLadder.extracted_ladder_wf",
             "Cppcheck.AstLadder.createAst_follows_grammar", "Cppcheck.AstLadder.createAst_follows_grammar_counterexample",
             "Cppcheck.AstLadder.createAst_follows_grammar_extracted",
